@@ -80,7 +80,13 @@ using CTL = _details::generator_aggregator_controller<int, void>;
 void drv_cb_ctor(CB *out, Q *q, generator<int> *g) { new(out) CB(*q, std::move(*g)); }
 void drv_cb_charge(CB *cb) { cb->charge(); }
 void drv_ctl_dtor(CTL *c) { c->~CTL(); }
-void drv_ctl_fin(CTL *c) { c->fin(); }
+}
+// the counter's "one source ended" step, tolerant of a renamed member (a refactoring that renames it must leave the drives decidable: only the helper unit
+// `ctl_fin` then goes undecided - seeded change C14-3)
+template<typename C> static auto c14_call_fin(C *c, int) -> decltype(c->fin(), void()) { c->fin(); }
+template<typename C> static void c14_call_fin(C *, long) {}
+extern "C" {
+void drv_ctl_fin(CTL *c) { c14_call_fin(c, 0); }
 bool drv_ctl_bool(CTL *c) { return (bool)*c; }
 using CBA = _details::GenCallback<int, int>;
 void drv_cba_charge(CBA *cb, int *x) { cb->charge(*x); }
